@@ -227,8 +227,11 @@ func init() {
 	reg(vpPath+".Symbolic", func(fr *frame, args []value) value { return true })
 	reg(vpPath+".SymbolicMapOrder", func(fr *frame, args []value) value {
 		ex := fr.i.ex
-		ex.mapOrderOn = true
 		ex.mapOrderMax = int(asInt64(args[0]))
+		ex.mapOrderOn = ex.mapOrderMax > 0
+		if !ex.mapOrderOn {
+			return nil
+		}
 		ex.adversMapPkgs = map[string]bool{}
 		for _, p := range args[1].([]value) {
 			ex.adversMapPkgs[concStr(fr, p, "vp.SymbolicMapOrder")] = true
